@@ -4,7 +4,7 @@
 
 // ===================================================================================================
 // property checks; each returns PASS/FAIL/DISCARD for one case
-enum PropId { C01, C02, C05, C08, C09, C10, C11, C16, C04G, C12S };
+enum PropId { C01, C02, C05, C08, C09, C10, C11, C16, C04G, C12S, C02R };
 
 template<class TT>
 static Verdict check_case(PropId prop, const GCase& c, Stats& st)
@@ -19,6 +19,9 @@ static Verdict check_case(PropId prop, const GCase& c, Stats& st)
     // C12s: "stack sizes ... are large enough for every input": the value oracle of C02 on inputs that are much deeper / longer than any initial reservation
     const bool only_deep = prop == C12S;
     if (only_deep) prop = C02;
+    // C02r: C02's parenthesis "(except nodes later discarded by error recovery)": in a parse that recovered, the functors of the nodes that stay get exactly the
+    // values of their children in the derivation with the error symbol; the recovery oracle of C08 serves it (same grammars, counted under C02)
+    if (prop == C02R) prop = C08;
     bool uses_err = g.uses_error();
     if (uses_err && (prop == C01 || prop == C09 || prop == C05)) return Verdict::discard("uses-error");
     if (!uses_err && prop == C08) return Verdict::discard("no-error-rule");
@@ -546,7 +549,7 @@ struct GP
     using Case = GCase;
     static const char* id()
     {
-        switch (PROP) { case C01: return "C01"; case C02: return "C02"; case C05: return "C05"; case C08: return "C08"; case C09: return "C09"; case C10: return "C10"; case C11: return "C11"; case C04G: return "C04g"; case C12S: return "C12s"; default: return "C16"; }
+        switch (PROP) { case C01: return "C01"; case C02: return "C02"; case C05: return "C05"; case C08: return "C08"; case C09: return "C09"; case C10: return "C10"; case C11: return "C11"; case C04G: return "C04g"; case C12S: return "C12s"; case C02R: return "C02r"; default: return "C16"; }
     }
     static Case gen(Choice& ch)
     {
@@ -555,7 +558,7 @@ struct GP
         case C01: return gen_case(ch, gg::CONFLICT_FREE, 6, false, false);
         case C02: return gen_case(ch, gg::CONFLICT_FREE, 12, false, false, true);
         case C05: return gen_case(ch, gg::PRECEDENCE, 16, false, false);
-        case C08: return gen_case(ch, gg::RECOVERY, 14, true, false);
+        case C08: case C02R: return gen_case(ch, gg::RECOVERY, 14, true, false);
         case C09: return gen_case(ch, gg::CONFLICT_FREE, 8, true, true);
         case C10: return gen_case(ch, ch.chance(1, 2) ? gg::RECOVERY : gg::CONFLICT_FREE, 12, true, true);   // positions after recovery-skipped terms too
         case C11: return gen_case(ch, gg::ANY, 4, false, false);
@@ -784,11 +787,12 @@ inline const auto& parser_h()
     static const auto* p = []
     {
         constexpr nterm<int> num("num"), tag("tag");
+        constexpr nterm<long> wide("wide");      // a left-side type that differs from its functor's return type (int), both being value types of the grammar
         constexpr nterm<IV> ll("ll"), rl("rl"), wl("wl"), vl("vl");
         constexpr nterm<Top> top("top");
         constexpr regex_term<h_num_pattern> number("number");
         return new parser(
-            top, terms(number, ',', ';', ':', '(', ')', '[', ']', '!', '#'), nterms(top, ll, rl, wl, vl, num, tag),
+            top, terms(number, ',', ';', ':', '(', ')', '[', ']', '!', '#'), nterms(top, ll, rl, wl, vl, num, tag, wide),
             rules(
                 top(ll, ';', rl, ';', wl, ';', vl, tag) >= [](IV&& a, skip, IV&& b, skip, IV&& c, skip, IV&& d, int t) { return Top{std::move(a), std::move(b), std::move(c), std::move(d), t}; },
                 num(number) >= [](std::string_view sv) { int v = 0; for (char c : sv) v = (v * 10 + (c - '0')) % 100000; return v; },
@@ -803,7 +807,8 @@ inline const auto& parser_h()
                 vl('!') >= create<IV>{},
                 vl(vl, ':', '(', num) >= emplace_back<1, 4>{},               // container first, two between
                 tag() >= val(7),
-                tag('#', num) >= _e2
+                wide(num) >= [](int v) { return v; },                        // returns int, the node is a long
+                tag('#', wide) >= [](skip, long w) { return int(w % 100000); }
             ),
             use_generated_lexer{}, h_limits{});
     }();
@@ -1041,6 +1046,16 @@ static SpellTable make_spelling(Choice& ch0, uint64_t salt, const std::vector<in
         if (isrx(t.sp[j].kind) && t.sp[j].text[0] == t.sp[i].text[0]) clash = true;
         if (clash) t.sp[i] = menu[i][0];
     }
+    // C01/C02's programs: the custom name of a regex term is only a display name, so it may repeat the id of another term (keyword "number" next to a
+    // literal named "number"); rules must still bind every symbol to the term object that was written
+    if (getenv("EMIT_SAME_NAMES") && ch.chance(1, 2))
+    {
+        std::vector<size_t> named, plain;
+        for (size_t i = 0; i < 6; ++i) { if (t.sp[i].kind == 'r' || t.sp[i].kind == 'T') named.push_back(i); else if ((t.sp[i].kind == 'c' || t.sp[i].kind == 's' || t.sp[i].kind == 't') && t.sp[i].text[0] >= 0x20 && t.sp[i].text.find('\n') == std::string::npos) plain.push_back(i); }
+        if (!named.empty() && !plain.empty()) t.sp[named[ch.below(uint32_t(named.size()))]].name = t.sp[plain[ch.below(uint32_t(plain.size()))]].text;
+    }
+    // C18's programs: display names of realistic length that share a long prefix (all terminals are custom terms there, named by these strings)
+    if (getenv("EMIT_LONG_NAMES")) for (size_t i = 0; i < 6; ++i) t.sp[i].name = "string_literal_" + t.sp[i].name;
     for (int i = 0; i < 6; ++i) t.decl_order.push_back(i);
     for (int i = 5; i > 0; --i) std::swap(t.decl_order[size_t(i)], t.decl_order[ch.below(uint32_t(i + 1))]);
     return t;
@@ -1081,10 +1096,17 @@ static std::string render_spelled(const SpellTable& t, const std::vector<ref::To
 {
     static const char* seps[] = {" ", "  ", "\n", " \n ", "\t", "\r\n"};
     std::string s; if (rng.chance(1, 4)) s += seps[rng.below(6)];
+    // C09's programs: now and then ONE lexeme of a regex term is 64 KiB long or longer (lengths around the 16-bit boundary)
+    bool giant_left = getenv("EMIT_GIANT_LEXEME") && rng.chance(1, 12);
     for (auto& tk : toks)
     {
         const Spelling& sp = t.sp[size_t(tk.term)];
-        if (sp.kind == 'r' || sp.kind == 'R' || sp.kind == 'T') { s += sp.text[0]; int nd = 1 + int(rng.below(3)); for (int k = 0; k < nd; ++k) s += char('0' + rng.below(10)); }
+        if (sp.kind == 'r' || sp.kind == 'R' || sp.kind == 'T')
+        {
+            s += sp.text[0]; int nd = 1 + int(rng.below(3));
+            if (giant_left && rng.chance(1, 2)) { giant_left = false; static const int lens[] = {65534, 65535, 65536, 70000}; nd = lens[rng.below(4)]; }
+            for (int k = 0; k < nd; ++k) s += char('0' + rng.below(10));
+        }
         else s += sp.text;
         s += seps[rng.below(6)];
     }
@@ -1136,7 +1158,7 @@ static int emit_cases(const eng::Args& a)
         auto tname = [&](int t) -> std::string { if (t == g.eof()) return "<eof>"; if (t == g.err()) return "<error_recovery_token>"; return spelled ? spell.sp[size_t(t)].name : g.tname(t); };
         if (spelled)
         {
-            std::vector<gg::Input> re;
+            std::vector<gg::Input> re; int ngiant = 0;
             for (auto& in : keep)
             {
                 gg::Lexed L0 = gg::lex_ref(in.text, in.skip_ws, in.skip_nl);
@@ -1145,6 +1167,7 @@ static int emit_cases(const eng::Args& a)
                 if (L0.lex_error) n2.text += "@ ";
                 if (!n2.skip_nl) { for (auto& chx : n2.text) if (chx == '\n' || chx == '\r') chx = ' '; }
                 if (n2.text.size() <= 60) re.push_back(n2);
+                else if (n2.text.size() > 65000 && ngiant < 2) { ++ngiant; re.push_back(n2); }       // at most two texts with a giant lexeme per grammar
             }
             keep = re;
         }
@@ -1225,6 +1248,7 @@ int main(int argc, char** argv)
         else if (a.prop == "C16") rc = eng::run_property<GP<C16>>(a);
         else if (a.prop == "C04g") rc = eng::run_property<GP<C04G>>(a);
         else if (a.prop == "C12s") rc = eng::run_property<GP<C12S>>(a);
+        else if (a.prop == "C02r") rc = eng::run_property<GP<C02R>>(a);
         else { fprintf(stderr, "unknown --prop %s\n", a.prop.c_str()); rc = 2; }
     });
     return rc;
